@@ -25,6 +25,10 @@ def main():
         import check_c07 as m
     elif pid == "C14":
         import check_c14 as m
+    elif pid == "C08":
+        import check_c08 as m
+    elif pid == "C10":
+        import check_c10 as m
     elif pid == "C17":
         import check_c17 as m
     else:
